@@ -20,7 +20,7 @@ FUNCTIONS = ['MIP.mip (blocks, cards, cellcard/surfacecard/datacard split)', 'MI
              'writeT4Geometry / VolumeT4.__str__ / SurfaceT4.__str__', 'writeT4Composition', 'writeT4GeomComp']
 
 
-def dup_union_deck(rnd):
+def dup_union_deck(rnd, force_form=None):
     """a union whose operands use two cards of the SAME surface (pz p / p 0 0 1 q with q = p on one path of the
     solver) with opposite senses: the operand is empty only once the duplicates have been merged."""
     from fractions import Fraction as Fr
@@ -30,7 +30,14 @@ def dup_union_deck(rnd):
     pre = []
     p_, q_ = gen.V('p'), gen.V('q')
     form = rnd.choice(['pz/p', 'so/s', 'px/px'])
-    if form == 'pz/p':
+    form = force_form or form
+    if form == 'p/-p':
+        # the same plane written with opposite normals (coincide when q = -p): merging the two cards must swap the
+        # senses of the references to the second one
+        nrm = rnd.choice([(1, 1, 0), (1, -2, 2), (0, 3, 4)])
+        s3 = dk.Surf(3, 'p', [Fr(c) for c in nrm] + [p_])
+        s4 = dk.Surf(4, 'p', [Fr(-c) for c in nrm] + [q_])
+    elif form == 'pz/p':
         s3, s4 = dk.Surf(3, 'pz', [p_]), dk.Surf(4, 'p', [Fr(0), Fr(0), Fr(1), q_])
     elif form == 'so/s':
         pre += [z3.Real('p') > 0, z3.Real('q') > 0]
@@ -108,9 +115,50 @@ def special_deck(rnd):
     return d, pre
 
 
+def macro_union_deck(rnd):
+    """a macrobody used untransformed next to a cell that holds a union: the numbers handed to the extra surfaces of
+    a multi-surface card (facets of a macrobody, the cutting plane of a one-sheet cone) and the numbers of the two
+    auxiliary 'union planes' come from two different counters that must not collide."""
+    import z3
+    from fractions import Fraction as Fr
+    from .. import deck as dk
+    d = dk.Deck()
+    pre = []
+    a, b = gen.V('a'), gen.V('b')
+    pre.append(z3.Real('a') > 0)
+    kind = rnd.choice(['rpp', 'rpp', 'box', 'rcc', 'cones'])
+    big = rnd.choice([20, 20, 7])
+    if kind == 'rpp':
+        d.surfs = [dk.Surf(10, 'rpp', [-a, a, Fr(-2), Fr(2), Fr(-3), Fr(3)])]
+    elif kind == 'box':
+        d.surfs = [dk.Surf(10, 'box', [Fr(-1), Fr(-2), Fr(-3), a, 0, 0, 0, Fr(4), 0, 0, 0, Fr(6)])]
+    elif kind == 'rcc':
+        d.surfs = [dk.Surf(10, 'rcc', [0, 0, Fr(-1), 0, 0, Fr(4), a])]
+    else:
+        # three one-sheet cones: one extra surface each
+        d.surfs = [dk.Surf(10, 'kz', [Fr(-4), Fr(1, 4), Fr(1)]), dk.Surf(11, 'kz', [Fr(4), Fr(1, 4), Fr(-1)]),
+                   dk.Surf(12, 'kx', [Fr(-5), Fr(1, 4), Fr(1)])]
+    d.surfs += [dk.Surf(big, 'so', [Fr(10)]), dk.Surf(1, 'px', [b]), dk.Surf(4, 'px', [Fr(-4)])]
+    if rnd.random() < 0.5:
+        d.surfs.reverse()
+    d.mats[1] = [('13027', '1.0')]
+    inside = ('s', -10) if kind != 'cones' else ('and', ('s', -10), ('s', -11), ('s', -12))
+    d.cells.append(dk.Cell(1, ('and', inside, ('s', -big)) if kind == 'cones' else inside, mat=1, rho='-2.7', imp=1))
+    u = [('s', 1), ('s', -4)]
+    rnd.shuffle(u)
+    d.cells.append(dk.Cell(2, ('and', ('cell', 1), ('s', -big), ('or',) + tuple(u)), imp=1))
+    d.cells.append(dk.Cell(3, ('and', ('cell', 1), ('s', -big), ('cell', 2)), imp=1))
+    d.cells.append(dk.Cell(4, ('s', big), imp=0))
+    return d, pre
+
+
 def make(task):
+    if task[0] == 'macro-union':
+        return macro_union_deck(random.Random(task[1]))
     if task[0] == 'dup-union':
         return dup_union_deck(random.Random(task[1]))
+    if task[0] == 'dup-opp':
+        return dup_union_deck(random.Random(task[1]), force_form='p/-p')
     if task[0] == 'special':
         return special_deck(random.Random(task[1]))
     sd, nsurf, ncells, leaves = task
@@ -134,6 +182,8 @@ def run(tier):
         tasks = [(base + i, 2 + i % 4, 2 + i % 4, 1 + i % 6) for i in range(4000)]
     tasks += [('dup-union', base + i) for i in range(12 if tier == 'quick' else 300)]
     tasks += [('special', base + i) for i in range(12 if tier == 'quick' else 200)]
+    tasks += [('macro-union', base + i) for i in range(8 if tier == 'quick' else 120)]
+    tasks += [('dup-opp', base + i) for i in range(4 if tier == 'quick' else 60)]
     for r in run_pool(worker, tasks):
         rep.merge(r)
     rep.explanation = ('Generated MCNP partition decks (cell i = e_i and not the earlier cells, written with #n) with symbolic surface '
